@@ -8,3 +8,4 @@ open Verif.Props.C09
 #print axioms js_tree_tokens_safe
 #print axioms js_tree_relex
 #print axioms js_expr_relex
+#print axioms js_print_relex_partial
